@@ -187,6 +187,20 @@ pub fn run(ctx: &Ctx) -> ! {
     }
     let ex = Explorer { threads: ctx.threads(), budget: None, run: &run };
 
+    // recording run: how many queries each cycle of the nominal schedule (and of a restart) makes to
+    // the Cardano node - the positions at which the epoch can turn inside a cycle
+    let (rec, qmax) = {
+        use Ev::*;
+        let nom4 = nominal(4, 0);
+        let rec = replay(&scratch, &fixture, &nom4, Tail::Never);
+        let mut with_restart = nom4.clone();
+        let b34 = nom4.iter().enumerate().filter(|(_, e)| **e == Epoch).nth(2).map(|x| x.0).unwrap();
+        with_restart.splice(b34..b34, [Restart, Tick, Tick]);
+        let rec2 = replay(&scratch, &fixture, &with_restart, Tail::Never);
+        let qmax = rec.node_queries.iter().chain(rec2.node_queries.iter()).copied().max().unwrap_or(0) as u8;
+        (rec, qmax)
+    };
+
     // (a) all histories up to a depth over the full alphabet, from the prepared states
     let alpha = alphabet();
     let mut pre = prefixes();
@@ -201,6 +215,26 @@ pub fn run(ctx: &Ctx) -> ! {
         "bfs",
         json!({"prepared_states": pre.len(), "alphabet": alpha.len(), "depth_completed": st.depth_completed, "histories": st.transitions, "states": st.states}),
     );
+
+    if !quick {
+        // (a') the same to depth 3 with, in addition, the cycles during which the epoch turns after the
+        // k-th node query (every k, with and without the aggregator noticing at once)
+        let mut alpha_t = alpha.clone();
+        for k in 1..=qmax {
+            for node_only in [false, true] {
+                alpha_t.push(Ev::TickTurn { after: k, node_only });
+            }
+        }
+        let all = prefixes();
+        let pre_t = vec![all[0].clone(), all[1].clone(), all[2].clone()];
+        let t_part = std::time::Instant::now();
+        let st = ex.bfs(&pre_t, &alpha_t, 3, &mut rep);
+        eprintln!("[C20] bfs with epoch turns inside cycles: {} histories, {} states, {:.1}s", st.transitions, st.states, t_part.elapsed().as_secs_f64());
+        rep.extra(
+            "bfs_with_epoch_turns_inside_cycles",
+            json!({"prepared_states": pre_t.len(), "alphabet": alpha_t.len(), "depth_completed": st.depth_completed, "histories": st.transitions, "states": st.states}),
+        );
+    }
 
     // (b) deviation ball around the nominal schedule (four epochs quick, five thorough): drop,
     // duplicate, swap, or insert any event of the alphabet anywhere
@@ -341,6 +375,124 @@ pub fn run(ctx: &Ctx) -> ! {
         );
     }
 
+    // (e) epoch turns INSIDE a cycle. The Cardano node the signer talks to answers every query with the
+    // state of the chain at that moment (`NodeView`), and `TickTurn{after: k, node_only}` is a cycle
+    // during which the chain enters the next epoch (new stake distribution) right after the k-th query.
+    // The number of queries each cycle makes is taken from a recording run, so every position is tried.
+    {
+        use Ev::*;
+        let nom4 = nominal(4, 0);
+        let mut jobs: Vec<(Vec<Ev>, crate::world::Stakes)> = vec![];
+        let mut seen = HashSet::new();
+        let mut push = |h: Vec<Ev>, m: crate::world::Stakes, jobs: &mut Vec<(Vec<Ev>, crate::world::Stakes)>| {
+            if seen.insert((serde_json::to_string(&h).unwrap(), m.label())) {
+                jobs.push((h, m));
+            }
+        };
+        // (e1) every cycle of the nominal schedule, every query position of it: the next epoch boundary
+        // of the schedule happens inside that cycle instead (if only the node notices, the aggregator
+        // follows one cycle later)
+        let n_e1_start = jobs.len();
+        for (p, ev) in nom4.iter().enumerate() {
+            if *ev != Tick {
+                continue;
+            }
+            let next_epoch = nom4.iter().enumerate().skip(p).find(|(_, e)| **e == Epoch).map(|x| x.0);
+            for k in 0..=rec.node_queries[p] as u8 {
+                for node_only in [false, true] {
+                    let mut h = nom4.clone();
+                    if let Some(q) = next_epoch {
+                        h.remove(q);
+                    }
+                    h[p] = TickTurn { after: k, node_only };
+                    if node_only {
+                        // the aggregator notices after the signer's next cycle
+                        let at = h.iter().enumerate().skip(p + 1).find(|(_, e)| **e == Tick).map(|x| x.0 + 1).unwrap_or(h.len());
+                        h.insert(at, AggAhead);
+                    }
+                    push(h, crate::world::Stakes::Varying, &mut jobs);
+                }
+            }
+        }
+        let n_e1 = jobs.len() - n_e1_start;
+        // (e2) at an epoch boundary where signing is active: a short prelude (restart, cycles, a new
+        // immutable file), then the cycle in which the epoch turns, one more cycle, the aggregator
+        // follows if it had not, and the rest of the schedule
+        let noml = nominal(ctx.tier.pick(4, 5), 0);
+        let bl: Vec<usize> = noml.iter().enumerate().filter(|(_, e)| **e == Epoch).map(|x| x.0).collect();
+        let bs: Vec<usize> = if quick { vec![bl[2]] } else { vec![bl[2], bl[3]] };
+        let syms = [Tick, Restart, Immutable];
+        let preludes: Vec<Vec<Ev>> = mc_core::sequences(3, 2).into_iter().map(|x| x.into_iter().map(|i| syms[i]).collect()).collect();
+        let n_e2_start = jobs.len();
+        for b in &bs {
+            for x in &preludes {
+                for k in 0..=qmax {
+                    for node_only in [false, true] {
+                        let mut h = noml[..*b].to_vec();
+                        h.extend(x.iter().copied());
+                        h.push(TickTurn { after: k, node_only });
+                        h.push(Tick);
+                        if node_only {
+                            h.push(AggAhead);
+                        }
+                        h.extend(noml[*b + 1..].iter().copied());
+                        push(h, crate::world::Stakes::Varying, &mut jobs);
+                    }
+                }
+            }
+        }
+        let n_e2 = jobs.len() - n_e2_start;
+        // (e3) aggregator-ahead window in which the node catches up in the middle of a cycle
+        let n_e3_start = jobs.len();
+        for b in &bs {
+            for pre in [vec![], vec![Immutable]] {
+                for x in &preludes {
+                    for k in 0..=qmax {
+                        let mut h = noml[..*b].to_vec();
+                        h.extend(pre.iter().copied());
+                        h.push(AggAhead);
+                        h.extend(x.iter().copied());
+                        h.push(TickTurn { after: k, node_only: true });
+                        h.extend(noml[*b + 1..].iter().copied());
+                        push(h, crate::world::Stakes::OwnConstant, &mut jobs);
+                    }
+                }
+            }
+        }
+        let n_e3 = jobs.len() - n_e3_start;
+        let t_part = std::time::Instant::now();
+        let res = mc_core::par_map(&jobs, ctx.threads(), |_, (h, mode)| {
+            let o = crate::sys::replay_in(&scratch, &fixture, h, Tail::OncePerState(&claimed), *mode);
+            add_stats(&o);
+            o.result
+        });
+        let mut tstates = HashSet::new();
+        for ((h, mode), r) in jobs.iter().zip(res) {
+            rep.eval();
+            rep.outcome(&format!("epoch-turn-inside-cycle:{}", r.outcome));
+            if r.nontrivial {
+                rep.nontrivial(&r.canon);
+            }
+            if tstates.insert(r.canon.clone()) && tstates.len() % 61 == 1 {
+                rep.max_samples = 10;
+                rep.sample(json!({"history": h, "outcome": r.outcome, "world": mode.label()}));
+            }
+            for v in r.violations {
+                rep.push_violation(v);
+            }
+        }
+        eprintln!("[C20] epoch turns inside a cycle: {} histories ({n_e1}+{n_e2}+{n_e3}), {} states, {:.1}s", jobs.len(), tstates.len(), t_part.elapsed().as_secs_f64());
+        rep.states = Some(rep.states.unwrap_or(0) + tstates.len() as u64);
+        rep.transitions = Some(rep.transitions.unwrap_or(0) + jobs.len() as u64);
+        rep.traces_validated = Some(rep.traces_validated.unwrap_or(0) + jobs.len() as u64);
+        rep.extra(
+            "epoch_turns_inside_a_cycle",
+            json!({"node_queries_per_cycle_of_the_nominal_schedule": rec.node_queries.iter().filter(|q| **q > 0).collect::<Vec<_>>(), "max_queries_in_a_cycle": qmax,
+                   "every_cycle_of_the_nominal_every_position": n_e1, "boundary_with_prelude": n_e2, "aggregator_ahead_window_node_catches_up_inside_a_cycle": n_e3,
+                   "preludes": preludes.len(), "boundaries_at_events": bs, "histories": jobs.len(), "states": tstates.len()}),
+        );
+    }
+
     // (c) differential against the uninterrupted run. A restart costs the signer at most two cycles
     // (Init -> Unregistered -> registered), a lost acknowledgement one cycle (the beacon is published
     // again). So on the nominal schedule with two spare cycles per injected fault after every group of
@@ -469,9 +621,10 @@ pub fn run(ctx: &Ctx) -> ! {
     rep.extra("reference_offsets", json!({"recorded_for": "e+1", "signs_in": "e+2"}));
     rep.assume("the Cardano node (chain observer, immutable file observer, block scanner, immutable digester) is replaced by the repository's own test doubles; the aggregator by the harness reference aggregator called in process (no HTTP, no message adapters)");
     rep.assume("reference rule: keys registered during epoch e, the stake distribution the chain showed during e and the parameters handed out during e are in force in e+2; a repeated registration in the same epoch replaces the earlier one");
-    rep.assume("the aggregator's clock is the signer's node epoch plus a skew of 0 or 1 (AggAhead / NodeCatchUp); a publication is judged by the epoch of the signed entity; while its node is behind an honest signer may be unable to register or sign - only wrong publications count then, liveness only after the node has caught up and faults are cleared");
+    rep.assume("the aggregator's clock is the signer's node epoch plus a skew of 0 or 1 (AggAhead / NodeCatchUp), or minus 1 after an epoch turn only the node has noticed; a publication is judged by the epoch of the signed entity; while its node is behind an honest signer may be unable to register or sign - only wrong publications count then, liveness only after the node has caught up and faults are cleared");
     rep.assume("two worlds: every pool's stake changes each epoch (all parts but the aggregator-ahead windows), or the stake of the pool under test is constant and only the others' change (the windows); protocol parameters change every epoch in both");
-    rep.assume("events are atomic with respect to a state-machine cycle: no fault or chain event happens in the middle of a cycle");
+    rep.assume("epoch changes (with the new stake distribution) happen between cycles or right after any query the signer makes to its Cardano node inside a cycle (TickTurn); the other chain events (new immutable file, new blocks) and all aggregator-side faults and clock moves happen between cycles only: an aggregator answer is never separated from the aggregator state it was computed from");
+    rep.assume("classifier keys of violations that follow an epoch turn inside a cycle carry a diagnosis suffix computed by the harness from the node's stores (stake distribution stored for another epoch / registered state of one epoch on the data of another); the suffix never creates or removes a violation");
     rep.assume("the node draws its keys from the OS random generator: signatures differ between runs, canonical states record only which keys exist and whether signer and aggregator agree on them; the signer under test holds ~3/4 of the stake and the reference parameters are m>=30, phi_f>=0.8, so it wins at least one lottery except with probability < 1e-15 per signature");
     rep.assume("only acknowledged publications count for 'at most once'; a further publication after an unacknowledged one is legitimate");
     rep.finish(ctx)
